@@ -66,6 +66,14 @@ reg("C01", "exploration",
     BASE_NOTE + "References are my reading of the documentation; where it is silent only the domain predicate is applied.",
     "DESIGN.md 3/C01")
 
+reg("C02", "exploration",
+    "Hypothesis assignment histories vs a per-step model of expected handler calls (comparison mode x readable before/after), identity of reported old/new, agreement of the three mechanisms",
+    "Generated histories of normal, quiet and rejected assignments and default reads over 19 attributes (6 trait kinds x 3 "
+    "comparison modes + Event), each watched by a static handler, _anytrait_changed, on_trait_change and observe, any two "
+    "of which raise; expected call counts are computed from the values readable before/after. Sampling, not exhaustive.",
+    BASE_NOTE + "Handler exceptions are swallowed by recording exception handlers (the default configuration logs them).",
+    "DESIGN.md 3/C02")
+
 
 def main():
     props = [json.loads(l) for l in open(os.path.join(ROOT, "properties.jsonl"))]
